@@ -66,7 +66,7 @@ func (r *RelationTuple) FromProto(proto *rts.RelationTuple) *RelationTuple {
 		Object:    proto.Object,
 		Relation:  proto.Relation,
 	}
-	switch subject := proto.Subject.Ref.(type) {
+	switch subject := proto.GetSubject().GetRef().(type) {
 	case *rts.Subject_Id:
 		r.SubjectID = pointerx.Ptr(subject.Id)
 	case *rts.Subject_Set:
